@@ -195,6 +195,63 @@ theorem dt_logdet (G U dtG : Fin 3 → Fin 3 → K) (dG : Fin 3 → Fin 3 → Fi
   unfold det3
   ring
 
+/-- `A_ij A^ij = K_ij K^ij − K²/3` for `A_ij = K_ij − γ_ij K/3` (uses `γ^ij γ_jk = δ`, both symmetric). -/
+theorem A2_closed (G U Kd : Fin 3 → Fin 3 → K) (T : K) (h3 : (3 : K) ≠ 0) (hsymG : Sym G) (hsymU : Sym U)
+    (hUG : ∀ i k : Fin 3, ∑ j, U i j * G j k = delta i k) (hT : T = ∑ i, ∑ j, U i j * Kd i j) :
+    ∑ i, ∑ j, (Kd i j - (1 / 3) * G i j * T) * (∑ a, ∑ b, U i a * U j b * (Kd a b - (1 / 3) * G a b * T))
+      = (∑ i, ∑ j, Kd i j * (∑ a, ∑ b, U a i * U b j * Kd a b)) - (1 / 3) * T ^ 2 := by
+  have u01 := hsymU 1 0; have u02 := hsymU 2 0; have u12 := hsymU 2 1
+  have g01 := hsymG 1 0; have g02 := hsymG 2 0; have g12 := hsymG 2 1
+  have h00 := hUG 0 0; have h01 := hUG 0 1; have h02 := hUG 0 2
+  have h10 := hUG 1 0; have h11 := hUG 1 1; have h12 := hUG 1 2
+  have h20 := hUG 2 0; have h21 := hUG 2 1; have h22 := hUG 2 2
+  simp only [delta, Fin.sum_univ_three, u01, u02, u12, g01, g02, g12] at h00 h01 h02 h10 h11 h12 h20 h21 h22
+  norm_num [Fin.ext_iff] at h00 h01 h02 h10 h11 h12 h20 h21 h22
+  simp only [Fin.sum_univ_three, u01, u02, u12, g01, g02, g12] at hT ⊢
+  have h33 : (3 : K) * (1 / 3) = 1 := by field_simp
+  linear_combination (exp := 1)
+      (-((1 / 3) * 2) * T * (Kd 0 0 * U 0 0 + Kd 1 0 * U 0 1 + Kd 2 0 * U 0 2) + (1 / 3) * (1 / 3) * T ^ 2 * (G 0 0 * U 0 0 + G 0 1 * U 0 1 + G 0 2 * U 0 2) + (1 / 3) * (1 / 3) * T ^ 2) * h00
+      + (-((1 / 3) * 2) * T * (Kd 0 0 * U 0 1 + Kd 1 0 * U 1 1 + Kd 2 0 * U 1 2) + (1 / 3) * (1 / 3) * T ^ 2 * (G 0 0 * U 0 1 + G 0 1 * U 1 1 + G 0 2 * U 1 2)) * h01
+      + (-((1 / 3) * 2) * T * (Kd 0 0 * U 0 2 + Kd 1 0 * U 1 2 + Kd 2 0 * U 2 2) + (1 / 3) * (1 / 3) * T ^ 2 * (G 0 0 * U 0 2 + G 0 1 * U 1 2 + G 0 2 * U 2 2)) * h02
+      + (-((1 / 3) * 2) * T * (Kd 0 1 * U 0 0 + Kd 1 1 * U 0 1 + Kd 2 1 * U 0 2) + (1 / 3) * (1 / 3) * T ^ 2 * (G 0 1 * U 0 0 + G 1 1 * U 0 1 + G 1 2 * U 0 2)) * h10
+      + (-((1 / 3) * 2) * T * (Kd 0 1 * U 0 1 + Kd 1 1 * U 1 1 + Kd 2 1 * U 1 2) + (1 / 3) * (1 / 3) * T ^ 2 * (G 0 1 * U 0 1 + G 1 1 * U 1 1 + G 1 2 * U 1 2) + (1 / 3) * (1 / 3) * T ^ 2) * h11
+      + (-((1 / 3) * 2) * T * (Kd 0 1 * U 0 2 + Kd 1 1 * U 1 2 + Kd 2 1 * U 2 2) + (1 / 3) * (1 / 3) * T ^ 2 * (G 0 1 * U 0 2 + G 1 1 * U 1 2 + G 1 2 * U 2 2)) * h12
+      + (-((1 / 3) * 2) * T * (Kd 0 2 * U 0 0 + Kd 1 2 * U 0 1 + Kd 2 2 * U 0 2) + (1 / 3) * (1 / 3) * T ^ 2 * (G 0 2 * U 0 0 + G 1 2 * U 0 1 + G 2 2 * U 0 2)) * h20
+      + (-((1 / 3) * 2) * T * (Kd 0 2 * U 0 1 + Kd 1 2 * U 1 1 + Kd 2 2 * U 1 2) + (1 / 3) * (1 / 3) * T ^ 2 * (G 0 2 * U 0 1 + G 1 2 * U 1 1 + G 2 2 * U 1 2)) * h21
+      + (-((1 / 3) * 2) * T * (Kd 0 2 * U 0 2 + Kd 1 2 * U 1 2 + Kd 2 2 * U 2 2) + (1 / 3) * (1 / 3) * T ^ 2 * (G 0 2 * U 0 2 + G 1 2 * U 1 2 + G 2 2 * U 2 2) + (1 / 3) * (1 / 3) * T ^ 2) * h22
+      + ((1 / 3) * 2 * T) * hT + ((1 / 3) * T ^ 2) * h33
+
+/-- **∂_t of K = γ^ij K_ij.**  With `∂_tγ^ij = L_βγ^ij + 2αK^ij`, the ADM evolution equation for `K_ij`, the product
+rule for `∂_sK`, and the HAMILTONIAN CONSTRAINT `R + K² − K_ijK^ij − 2κρ − 2Λ = 0`, the BSSNOK right-hand side of
+`∂_tK` (with `Ã_ijÃ^ij = K_ijK^ij − K²/3`) is `∂_t(γ^ij K_ij) = (∂_tγ^ij)K_ij + γ^ij ∂_tK_ij`. -/
+theorem dt_trace_K (G U Kd Ku dtU dtKd DDα Ric Sd : Fin 3 → Fin 3 → K) (dU dKd : Fin 3 → Fin 3 → Fin 3 → K)
+    (β : Fin 3 → K) (dβ : Fin 3 → Fin 3 → K) (dKtr : Fin 3 → K) (α Ktr A2 κ ρ S Λ R : K) (h2 : (2 : K) ≠ 0)
+    (hsymU : Sym U) (hsymK : Sym Kd)
+    (hUG : ∀ i k : Fin 3, ∑ j, U i j * G j k = delta i k)
+    (hKu : ∀ a b, Ku a b = ∑ i, ∑ j, U i a * U j b * Kd i j)
+    (hKtr : Ktr = ∑ i, ∑ j, U i j * Kd i j) (hS : S = ∑ i, ∑ j, U i j * Sd i j) (hR : R = ∑ i, ∑ j, U i j * Ric i j)
+    (hA2 : A2 = (∑ i, ∑ j, Kd i j * Ku i j) - (1 / 3) * Ktr ^ 2)
+    (hdK : ∀ s, dKtr s = ∑ i, ∑ j, (dU s i j * Kd i j + U i j * dKd s i j))
+    (hdtU : ∀ i j, dtU i j = ADM.dtGammaUp β dβ dU U α Ku i j)
+    (hadm : ∀ i j, dtKd i j = ADM.dtKdown β dβ dKd Kd G U DDα Ric Sd α Ktr κ ρ S Λ i j)
+    (hham : ADM.hamiltonian R Ktr Kd Ku κ ρ Λ = 0) :
+    ∑ i, ∑ j, (dtU i j * Kd i j + U i j * dtKd i j) = ADM.dtK β dKtr U DDα α A2 Ktr κ ρ S Λ := by
+  have u01 := hsymU 1 0; have u02 := hsymU 2 0; have u12 := hsymU 2 1
+  have k01 := hsymK 1 0; have k02 := hsymK 2 0; have k12 := hsymK 2 1
+  have h3 : ∑ i : Fin 3, ∑ j : Fin 3, U i j * G j i = 3 := by
+    simp only [hUG, delta]; simp
+  have h22 : (2 : K) * (1 / 2) = 1 := by field_simp
+  -- name the contractions that appear in the constraint
+  subst hA2; subst hR; subst hS; subst hKtr
+  simp only [ADM.hamiltonian] at hham
+  simp only [ADM.dtK, ADM.dtKdown, ADM.dtGammaUp, lie0, lieUU, lieDD, hdtU, hadm, hdK] at hham ⊢
+  simp only [hKu, Fin.sum_univ_three, u01, u02, u12, k01, k02, k12] at hham h3 ⊢
+  linear_combination α * hham
+    + ((1 / 2) * κ * α * ((U 0 0 * Sd 0 0 + U 0 1 * Sd 0 1 + U 0 2 * Sd 0 2 + (U 0 1 * Sd 1 0 + U 1 1 * Sd 1 1 + U 1 2 * Sd 1 2)
+        + (U 0 2 * Sd 2 0 + U 1 2 * Sd 2 1 + U 2 2 * Sd 2 2)) - ρ) - α * Λ) * h3
+    + κ * α * ((U 0 0 * Sd 0 0 + U 0 1 * Sd 0 1 + U 0 2 * Sd 0 2 + (U 0 1 * Sd 1 0 + U 1 1 * Sd 1 1 + U 1 2 * Sd 1 2)
+        + (U 0 2 * Sd 2 0 + U 1 2 * Sd 2 1 + U 2 2 * Sd 2 2)) - 2 * ρ) * h22
+
 /-- **∂_t of the conformal metric γ̃_ij = p γ_ij** (`p = ψ⁻⁴`, `∂p = −4p∂φ`), `Ã_ij = p (K_ij − γ_ij K/3)`:
 the BSSNOK right-hand side `−2αÃ_ij + L_βγ̃_ij − (2/3)γ̃_ij∂_kβ^k` equals `p ∂_tγ_ij + (∂_t p) γ_ij`. -/
 theorem dt_conformal_metric (G Gt At Kd dtG : Fin 3 → Fin 3 → K) (dG dGt : Fin 3 → Fin 3 → Fin 3 → K)
